@@ -56,7 +56,7 @@ class C19(Check):
             "sequence on the environment; non-trivial = at least 3 learn steps; distinct = distinct (mode, actions, alpha, eps, lengths)")
     assumptions = ["MABEpsilonGreedy, MABCalibrationEnv/CalibrationEnv, RLScheduler: real code", "loss sequences keep the reference best away from 0 "
                    "(the rule divides by it)", "estimates compared with relative tolerance 1e-12, so an algebraically equal refactoring is not an alarm"]
-    quick = {"runs": 1200, "wall": 45, "item_timeout": 60}
+    quick = {"runs": 4000, "wall": 150, "item_timeout": 200}
     thorough = {"runs": 60000, "wall": 900, "item_timeout": 120}
 
     def gen(self, rng, tier, i):
